@@ -216,7 +216,8 @@ def against_lean_spec(hists, impl_out, head):
     return compared, out
 
 
-OSPEC_OPS = {'getitem', 'setitem', 'delitem', 'setdefault', 'pop', 'popitem', 'peekitem', 'len', 'iter', 'riter', 'clear', 'update'}
+OSPEC_OPS = {'getitem', 'setitem', 'delitem', 'setdefault', 'pop', 'popitem', 'peekitem', 'len', 'iter', 'riter', 'clear', 'update',
+             'items', 'keys', 'values', 'eq', 'ne', 'pickle', 'reopen'}
 
 
 def spec_history(rng, length):
@@ -225,6 +226,58 @@ def spec_history(rng, length):
     h['ops'] = [op for op in h['ops'] if op['m'] in OSPEC_OPS][:length] + [{'m': 'iter', 'now': 1000}]
     h['state_every'] = 0
     return h
+
+
+def views_miss_probe():
+    """the Lean witnesses DC.Index.items_propagates_miss / eqTo_miss_after_unequal replayed on the real
+    Index: a value file removed behind the library's back makes the re-look-up of the views miss; the
+    model says KeyError for items / values / == / != (False / True when an unequal pair or a different
+    length decides first) while the keys are still listed.  A difference here means the model of the
+    views no longer describes the code (the property itself says nothing about damaged directories)."""
+    import os
+    import shutil
+    import tempfile
+    import diskcache
+    root = os.environ.get('VERIF_SCRATCH') or tempfile.gettempdir()
+    d = tempfile.mkdtemp(prefix='ixmiss-', dir=root)
+    out = []
+    try:
+        ix = diskcache.Index(d)
+        big = b'F' * 70000
+        ix['a'] = 1
+        ix['b'] = big
+        ix['c'] = 3
+        files = [os.path.join(dp, f) for dp, dn, fs in os.walk(d) for f in fs if f.endswith('.val')]
+        if len(files) != 1:
+            return ['views probe: expected one value file, found %d' % len(files)]
+        os.remove(files[0])
+
+        def outcome(fn):
+            try:
+                return repr(fn())
+            except KeyError:
+                return '!KeyError'
+            except Exception as e:  # noqa
+                return '!' + type(e).__name__
+        OD = collections.OrderedDict
+        table = [
+            ('keys', lambda: list(ix.keys()), "['a', 'b', 'c']"),
+            ('items', lambda: list(ix.items()), '!KeyError'),
+            ('values', lambda: list(ix.values()), '!KeyError'),
+            ('== ordered, first pair unequal', lambda: ix == OD([('a', 2), ('b', big), ('c', 3)]), 'False'),
+            ('== ordered, first pair equal', lambda: ix == OD([('a', 1), ('b', big), ('c', 3)]), '!KeyError'),
+            ('== unordered, first pair equal', lambda: ix == {'a': 1, 'b': big, 'c': 3}, '!KeyError'),
+            ('== other length', lambda: ix == {'a': 1}, 'False'),
+            ('!= ordered, first pair unequal', lambda: ix != OD([('a', 2), ('b', big), ('c', 3)]), 'True'),
+            ('!= ordered, first pair equal', lambda: ix != OD([('a', 1), ('b', big), ('c', 3)]), '!KeyError'),
+        ]
+        for name, fn, want in table:
+            got = outcome(fn)
+            if got != want:
+                out.append('Index views over a missing value file: %s gives %s, the model (DC.Index.items_propagates_miss, eqTo_miss_after_unequal) says %s' % (name, got, want))
+    finally:
+        shutil.rmtree(d, ignore_errors=True)
+    return out
 
 
 def conc_case(args):
@@ -316,6 +369,9 @@ def run(tier, seed, rng, known, replay):
     from props import surface
     for v_ in surface.constructors()[:2]:
         r['violations'].append({'replay': {'property': 'C12', 'kind': 'surface-probe', 'probe': 'constructors', 'acceptor': v_}, 'found_input': True, 'what': v_})
+    for v_ in views_miss_probe()[:2]:
+        r['violations'].append({'replay': {'property': 'C12', 'kind': 'correspondence', 'model_part': 'DC.Index.items / eqTo on a missed re-look-up', 'acceptor': v_},
+                                'found_input': False, 'what': v_})
     # the real Index against the Lean ordered dictionary (the specification side of irun_refines)
     n_spec = 150 if tier == 'quick' else 2500
     shists = [spec_history(rng, rng.choice([10, 30, 60])) for _ in range(n_spec)]
